@@ -16,6 +16,7 @@ Design of the frame (rows = n, default 36):
   an   Int64 / object: ALL null inside row group 1, no null elsewhere
   k    constant int64 (min == max in every chunk)
   pi/ps/pb/pt  partition columns (int / str / bool / datetime) when the layout asks for them
+  tl/tu/tk     tz-aware datetime64 (Europe/London, UTC, Asia/Kolkata) when the recipe asks for them (TZ datasets)
 
 Layouts: single file | hive | drill, 0..2 partition columns, 1..4 row groups, multi-page chunks
 (MAX_PAGE_SIZE=64), DATAPAGE_VERSION 1|2, stats True|False|'auto'|list, written index none |
@@ -36,7 +37,7 @@ TEST_DATA = "/repo/test-data"
 PART_COLS = ("pi", "ps", "pb", "pt")
 
 
-def source_frame(n=36, an_kind="Int64", an_rows=(), with_n=True, parts=()):
+def source_frame(n=36, an_kind="Int64", an_rows=(), with_n=True, parts=(), tz=()):
     r = np.arange(n)
     d = {
         "rid": r.astype("int64"),
@@ -47,6 +48,8 @@ def source_frame(n=36, an_kind="Int64", an_rows=(), with_n=True, parts=()):
         "t": pd.to_datetime("2020-01-01") + pd.to_timedelta((r * 37) % 50, unit="h"),
         "b": (r % 3 == 0),
     }
+    for z in tz:        # tz-AWARE datetime columns: the instants of t, shown in a zone
+        d[z] = d["t"].tz_localize("UTC").tz_convert({"tl": "Europe/London", "tu": "UTC", "tk": "Asia/Kolkata"}[z])
     if with_n:
         d["n"] = pd.array([None if k % 6 == 2 else int(k % 9) - 4 for k in r], dtype="Int64")
     lo, hi = (an_rows or (0, 0))
@@ -146,10 +149,16 @@ RECIPES = {
     # degenerate
     "empty0":     dict(n=0, offsets=[0], v=1, page=None, stats="auto", an=None),
     "one_row":    dict(n=1, offsets=[0], v=1, page=None, stats=True, an=None),
+    # tz-aware datetime columns: as data, as the written index (single file / partitioned multi-file, v1 / v2)
+    "tz_data":    dict(n=36, offsets=[0, 12, 24], v=1, page=None, stats="auto", an=None, tz=("tl", "tu", "tk")),
+    "tz_idx_london": dict(n=36, offsets=[0, 20], v=1, page=64, stats="auto", an=None, tz=("tl", "tu"), index="tl"),
+    "tz_idx_utc_hive": dict(n=36, offsets=[0, 18], v=2, page=None, stats=True, an=None, tz=("tu", "tk"), index="tu",
+                            scheme="hive", parts=["pi"]),
 }
 
 QUICK = ["flat1", "flat3", "flat4v2", "flat2v2", "hive0", "hive_pi", "hive_ps_pb", "hive_pt", "drill_pi_ps",
          "idx_range", "idx_dt", "idx_int", "empty0", "one_row"]
+TZ = ["tz_data", "tz_idx_london", "tz_idx_utc_hive"]        # not part of QUICK: used by the modules that ask for them
 
 FOREIGN = ["nation.plain.parquet", "nation.dict.parquet", "nation.impala.parquet", "snappy-nation.impala.parquet",
            "gzip-nation.impala.parquet", "datapage_v2.snappy.parquet", "decimals.parquet", "empty.parquet",
@@ -170,8 +179,9 @@ def recipe_code(name):
     if rc["n"] == 0:
         L.append("src = source_frame(4, an_kind=None, parts=%r).iloc[:0]" % (parts,))
     else:
-        L.append("src = source_frame(%d, an_kind=%r, an_rows=%r, with_n=%r, parts=%r)" % (
-            rc["n"], an[0] if an else None, an[1] if an else (), rc.get("with_n", True), parts))
+        L.append("src = source_frame(%d, an_kind=%r, an_rows=%r, with_n=%r, parts=%r%s)" % (
+            rc["n"], an[0] if an else None, an[1] if an else (), rc.get("with_n", True), parts,
+            ", tz=%r" % (tuple(rc["tz"]),) if rc.get("tz") else ""))
     ix = rc.get("index")
     if ix == "range":
         L.append("towrite = src.set_axis(pd.RangeIndex(5, 5 + 2 * len(src), 2), axis=0)")
@@ -179,6 +189,8 @@ def recipe_code(name):
         L.append("towrite = src.set_index('t')")
     elif ix == "i":
         L.append("towrite = src.set_index('i')")
+    elif ix in ("tl", "tu", "tk"):
+        L.append("towrite = src.set_index(%r)" % ix)
     else:
         L.append("towrite = src")
     scheme = rc.get("scheme", "simple")
@@ -209,7 +221,8 @@ def build_one(fp, root, name, write=True):
     src, path = env["src"], env["path"]
     parts = rc.get("parts", [])
     ix = rc.get("index")
-    index_col, index_kind = {None: (None, "none"), "range": (None, "range"), "M": ("t", "M"), "i": ("i", "i")}[ix]
+    index_col, index_kind = {None: (None, "none"), "range": (None, "range"), "M": ("t", "M"), "i": ("i", "i"),
+                             "tl": ("tl", "Mtz"), "tu": ("tu", "Mtz"), "tk": ("tk", "Mtz")}[ix]
     feats = {"ds": name, "scheme": rc.get("scheme", "simple"), "nparts": len(parts), "v": rc["v"],
              "multipage": bool(rc["page"]), "index": index_kind}
     return DS(name, path, src, feats, index_col=index_col, index_kind=index_kind)
